@@ -143,13 +143,13 @@ def ctrlLine (st : KState) (e : SExp) : KState × String :=
       if failed && !st.closing then
         let wantErr := if st.faultKind == "error" || st.faultKind == "errorlist" then "list-error" else if st.faultKind == "canceled" then "canceled" else "list-invalid"
         if st.faultAt == 1 && r then fail s!"reject C08/C14 Ready() is closed although the first list failed ({st.faultKind})"
-        else if !d then fail s!"reject C14 list {st.faultAt} failed ({st.faultKind}) but the controller is not done"
+        else if !d then fail s!"reject C14/C11/C13 list {st.faultAt} failed ({st.faultKind}) but the controller is not done (a fatal list error must stop it and close everything below; if it goes on running it must go on listing)"
         else if err != wantErr then fail s!"reject C14 list {st.faultAt} failed ({st.faultKind}): Error() is {err}, expected {wantErr}"
         else if r != decide (st.faultAt > 1) then fail s!"reject C14/C08 list {st.faultAt} failed: Ready() is {r}"
         else if sd == .atom "false" then fail "reject C14/C11 the controller stopped on a list failure but its subscriber is not done"
         else (st1, "ok")
       else if d && !st.closing then
-        fail s!"reject C14/C04/C03 the controller stopped (Error {err}) although no list failed and nobody closed it"
+        fail s!"reject C14/C04/C03/C13 the controller stopped (Error {err}) although no list failed and nobody closed it"
       else if st.closing then
         if !d then fail "reject C12/C11 the controller is not done at the quiescent point after Close/cancel"
         else if err != "nil" && err != "canceled" && !failed then fail s!"reject C14 a deliberately closed controller reports Error {err}"
